@@ -11,7 +11,7 @@ from .engine import (V, Py, NONE_V, mk_bool, mk_int, mk_str, Obligation, SymExc,
                      BreakSig, ContinueSig, PathEnd, RaiseSig, Unsupported, State)
 from .verifier import Verifier, Frame, _parse_expr, NOOP_FUNCS
 
-SPEC_ONLY = {"snap_key", "allocated", "abs_select", "lo", "hi", "store", "const_arr", "elems", "lemma", "old", "at_loop", "implies", "iff", "ite", "forall", "exists", "fresh", "typeis", "instance",
+SPEC_ONLY = {"join_strs", "snap_key", "allocated", "abs_select", "lo", "hi", "store", "const_arr", "elems", "lemma", "old", "at_loop", "implies", "iff", "ite", "forall", "exists", "fresh", "typeis", "instance",
              "unchanged", "unchanged_since_loop", "seq_len", "int_str", "join", "in_re", "card", "is_none",
              "some", "select"}
 
@@ -89,6 +89,8 @@ class Exec(Verifier):
             return
         if isinstance(s, (ast.Pass, ast.FunctionDef)):
             return
+        if self.abort_at is not None:
+            return          # A-SIG: one abort signal per invocation
         if self.choose(2, "abort %s `%s`" % (phase, header_text(s))) == 1:
             self.abort_at = (self.frame.fname, phase, header_text(s))
             r = self.new_ref(None, "abort")
@@ -1080,6 +1082,9 @@ class Exec(Verifier):
         if exc.val is not None:
             env["exc"] = exc.val
         self.old_heap = None
+        tag = ""
+        if self.abort_at is not None:
+            tag = " [abort %s `%s`]" % (self.abort_at[1], self.abort_at[2][:70])
         matched = None
         for key in con.raises:
             kn = key.rstrip("+")
@@ -1093,11 +1098,11 @@ class Exec(Verifier):
         if matched is None:
             if con.allow_any_exception:
                 return
-            self.oblige("no %s escapes (%s)" % (exc.cls + ("" if exc.exact else " or subclass"), exc.origin), "exc",
+            self.oblige("no %s escapes (%s)%s" % (exc.cls + ("" if exc.exact else " or subclass"), exc.origin, tag), "exc",
                         z3.BoolVal(False), con.props, text="exceptions allowed to escape: %s" % (sorted(con.raises) or "none"))
             return
         for cl in con.raises[matched]:
-            self.oblige("on %s: %s" % (matched, cl.label), "exc-post", self.spec(cl.expr, env), cl.props or con.props, text=cl.expr)
+            self.oblige("on %s: %s%s" % (matched, cl.label, tag), "exc-post", self.spec(cl.expr, env), cl.props or con.props, text=cl.expr)
 
 
 def verify_lemma(eng, lem):
